@@ -176,6 +176,11 @@ func scenarios(tier string) []Scn {
 			sc := early(v, 0)
 			sc.Faults = []simnet.Fault{{Op: "WriteTo", K: k, Class: "fatal"}}
 			out = append(out, Scn{Kind: "proto", Items: []proto.Scn{sc}, Bound: b, Name: fmt.Sprintf("%s/send-%d-fails-while-replies-are-read", v, k)})
+			// the converse: the k-th read fails for good (the capture socket went away) while the sender is still recording
+			// probes: whatever the receiver puts into its error is read under the same discipline as everything else
+			rc := early(v, 0)
+			rc.Faults = []simnet.Fault{{Op: "Read", K: 3 * k, Class: "fatal"}}
+			out = append(out, Scn{Kind: "proto", Items: []proto.Scn{rc}, Bound: b, Name: fmt.Sprintf("%s/read-%d-fails-while-probes-are-sent", v, 3*k)})
 		}
 	}
 	for _, v := range []string{"sack", "sackstrict"} {
